@@ -509,6 +509,24 @@ class C07(core.Check):
 
     # ---------- oracle: written from the property text; uses only the case and what was observed ----------
     def oracle(self, case, res):
+        """core keeps at most 200 reports per run and de-duplicates them by signature afterwards: while the
+        generated cases are being evaluated, at most DUP_CAP reports per signature are passed on (the rest are only
+        counted), so that repetitions of one finding can not crowd a different violation out of the report list"""
+        msgs = self.judge(case, res)
+        if not getattr(self, "_suppress", False):
+            return msgs
+        out = []
+        for m in msgs:
+            sig = self.signature(case, m)
+            k = self._sig_count.get(sig, 0)
+            self._sig_count[sig] = k + 1
+            if k < self.DUP_CAP:
+                out.append(m)
+        return out
+
+    DUP_CAP = 12
+
+    def judge(self, case, res):
         if "ast" in case:
             return [m for c, m in self.judge_sites([tuple(x) for x in res["sites"]]) if c["ast"][:4] == case["ast"][:4]]
         msgs = []
@@ -595,6 +613,8 @@ class C07(core.Check):
     def distribution(self, case, res, dist):
         if "ast" in case:
             return
+        if getattr(self, "_sig_count", None):
+            dist["reports_beyond_duplicate_cap"] = sum(max(0, v - self.DUP_CAP) for v in self._sig_count.values())
 
         def inc(k):
             dist[k] = dist.get(k, 0) + 1
@@ -733,6 +753,13 @@ class C07(core.Check):
                            "steps": [self.step(["none"], maxrow)] + [self.step(["key", k], maxrow) for k in seq]}
 
     def cases(self, rng, tier):
+        self._suppress, self._sig_count = True, {}
+        try:
+            yield from self.all_cases(rng, tier)
+        finally:
+            self._suppress = False
+
+    def all_cases(self, rng, tier):
         if tier == "quick":
             yield from self.state_cases(3, 3, 4)
             for _ in range(1500):
@@ -742,11 +769,11 @@ class C07(core.Check):
             yield from self.key_histories(rng, 3, 2, 12)
         else:
             yield from self.state_cases(3, 4, 5)
-            for _ in range(20000):
+            for _ in range(45000):
                 yield self.random_history(rng, "item", rng.choice([6, 10, 14, 24]))
-            for _ in range(5000):
+            for _ in range(10000):
                 yield self.random_history(rng, "real", rng.choice([6, 10, 14, 24]))
-            yield from self.key_histories(rng, 3, 3, 60)
+            yield from self.key_histories(rng, 3, 3, 120)
 
     def search_cases(self, rng, tier):
         yield from self.state_cases(2, 4, 6)
@@ -882,12 +909,12 @@ class C07(core.Check):
                   "change_focus (the only writers of offset_rows/inset_fraction - ast scan of all of urwid on every run) always "
                   "leave such a state, and any history of render / up / down / item keys / mouse press and wheel / set_focus / "
                   "direct shift_focus, change_focus, make_cursor_visible calls / walker edits, interleaved with arbitrary "
-                  "un-modelled operations that leave such a state, keeps it.  render_never_raises_any_history: after any such "
-                  "history render completes a pending 'first selectable' or set_focus request without raising and shows such a "
-                  "window, PROVIDED the positions named by the pending request still exist (PendOK; true for a fresh list box "
-                  "and after every set_focus, destroyed only by walker edits).  mouse_press_focuses: a button-1 press on a row "
-                  "showing a selectable item focuses it.  REFUTED in model and code (render_with_stale_pending_refuted, "
-                  "KNOWN-FINDING): without PendOK render raises (set_focus, then the old position is deleted, then render).  "
+                  "un-modelled operations that leave such a state, keeps it.  render_never_raises / "
+                  "render_never_raises_any_history: after any such history render completes a pending 'first selectable' or "
+                  "set_focus request - also when the old focus position was deleted meanwhile or the list was emptied - "
+                  "without raising and shows such a window; no premise on the pending request is left (before the repair "
+                  "93ada30 this was refuted for stale requests; the history is kept as a regression case in corpus/C07).  "
+                  "mouse_press_focuses: a button-1 press on a row showing a selectable item focuses it.  "
                   "NOT modelled, hence correspondence/oracle only: page up/down, home/end, set_focus_valign ('does not raise' for "
                   "them; the states they leave are covered by view_ok through the writers argument); exceptions raised by "
                   "keypress itself are recorded, not judged; widgets whose rows()/render()/cursor disagree; wrap-around "
@@ -916,7 +943,6 @@ class C07(core.Check):
     assumptions = [
         "item widgets: rows() >= 0, rows() and render() agree, the cursor row reported lies inside the widget (hypotheses heights_ok / cursor_ok of view_ok)",
         "maxrow >= 1 (StateOK); positions are list indices, no wrap-around walker",
-        "a pending set_focus request names positions that still exist (PendOK) - violated exactly by the known finding C07-stale-pending-set-focus",
         "page up/down, home/end, set_focus_valign are not modelled: any state they leave is ViewOK because they write the view state only through shift_focus/change_focus (ast scan); exceptions raised by keypress itself are recorded, not flagged",
     ]
 
